@@ -238,6 +238,8 @@ def summary_outputs(summ, cfg, kind='puts'):
         if pk[0] == 'pe':
             k = ('pe', pk[1], ev(pk[2], cfg))
         v = ev(x, cfg)
+        if isinstance(v, float):
+            v = int(v)
         out[k] = v if v is HOLDV else v & mask(cfg.width[k])
     for g, var, lo, hi, knd, pk, x in summ.foralls:
         if (knd == 'put') != (kind == 'puts'):
